@@ -1,24 +1,19 @@
 #!/bin/bash
-# tools/seed_confirm.sh <ID> <a|b> : confirm a seeded change in a scratch worktree (never in /repo):
-#   demonstration passes on the pinned tree, fails with the change; build and existing test suite still pass.
-# writes /tmp/seed_eval/<ID>_<x>.txt
+# tools/seed_confirm.sh <seed> [patchfile] : confirm a stored seeded change in a scratch worktree of /repo HEAD (never in /repo):
+#   the demonstration passes on the unchanged tree and fails with the change; the change builds and the pinned test
+#   suite (236 tests of /root/.vp/BASELINE.json) still passes. Prints one summary line; worktree removed afterwards.
 export GOFLAGS=-mod=mod GOPROXY=off GOSUMDB=off GOTOOLCHAIN=local
-id=$1; x=$2; src=/tmp/seeds/$id; wt=/tmp/wt-eval-$id$x; out=/tmp/seed_eval/${id}_$x.txt
-mkdir -p /tmp/seed_eval; rm -rf $wt; git -C /repo worktree add -q --detach $wt HEAD || exit 9
-cp -r $src $wt/_seed
+seed=$1; x=${seed##*-}; patch=${2:-/verif/seeded/$seed/patch.diff}
+wt=/tmp/verif-confirm-$seed-$$; log=/tmp/verif-confirm-$seed.log
+git -C /repo worktree add -q --detach $wt HEAD || exit 9
+mkdir -p $wt/_seed/$x; cp -r /verif/seeded/$seed/* $wt/_seed/$x/
 cd $wt
-{
-echo "seed $id/$x"
-timeout 600 bash _seed/$x/run.sh > /tmp/seed_eval/${id}_${x}_base.log 2>&1; echo "demo_on_pinned_tree_rc=$?"
-git status --short | grep -v '_seed' | head -3
+timeout 900 bash _seed/$x/run.sh > $log.base 2>&1; base=$?
 git checkout -q -- . ; git clean -fdq -e _seed
-git apply _seed/$x/patch.diff; echo "apply_rc=$?"
-timeout 600 bash _seed/$x/run.sh > /tmp/seed_eval/${id}_${x}_patched.log 2>&1; echo "demo_with_change_rc=$?"
+git apply $patch; ap=$?
+timeout 900 bash _seed/$x/run.sh > $log.patched 2>&1; pat=$?
 git clean -fdq -e _seed
-go build ./... > /tmp/seed_eval/${id}_${x}_build.log 2>&1; echo "build_rc=$?"
-go test -vet=off -count=1 ./... > /tmp/seed_eval/${id}_${x}_suite.log 2>&1
-echo "suite_failed_pkgs=$(grep -E '^(FAIL|---)' /tmp/seed_eval/${id}_${x}_suite.log | grep -E '^FAIL' | awk '{print $2}' | sort -u | tr '\n' ' ')"
-echo "suite_failed_tests=$(grep -E '^\s*--- FAIL' /tmp/seed_eval/${id}_${x}_suite.log | awk '{print $3}' | sort -u | tr '\n' ' ')"
-} > $out 2>&1
+go build ./... > $log.build 2>&1; b=$?
+suite=$(python3 /verif/tools/repo_tests.py $wt | head -1)
 cd /; git -C /repo worktree remove --force $wt
-cat $out
+echo "$seed apply_rc=$ap demo_unchanged_rc=$base demo_with_change_rc=$pat build_rc=$b suite: $suite"
